@@ -614,3 +614,82 @@ Proof.
   split; [exact E|]. split; [apply get_rdpe_closed; assumption|].
   unfold mpf_size_2. rewrite E. reflexivity.
 Qed.
+
+(* ---------------------------------------------------------------- mpf_get_d on its whole range
+   x = D * 2^ex0 with ex0 = 64 * (exp - n); top = bitlen D + ex0, i.e. 2^(top-1) <= x < 2^top *)
+Definition get_d_spec (D ex0 : Z) (neg : bool) (d : dbl) : Prop :=
+  let top := bitlen D + ex0 in
+  if 1025 <=? top then d = DInf neg                                   (* x >= 2^1024: infinity *)
+  else if -1021 <=? top then                                           (* normal range: the top 53 bits *)
+    exists q k, d = DFin neg q (ex0 + k) /\ 2 ^ 52 <= q < 2 ^ 53 /\ -1074 <= ex0 + k <= 971 /\
+      (0 <= k -> q * 2 ^ k <= D /\ 2 ^ 52 * (D - q * 2 ^ k) <= D) /\ (k < 0 -> q = D * 2 ^ (- k))
+  else if top <=? -1074 then d = DZero                                 (* x < 2^-1074 *)
+  else                                                                 (* subnormal range: multiples of 2^-1074, truncated *)
+    exists m, d = DFin neg m (-1074) /\ 0 < m < 2 ^ 52 /\
+      let sh := -1074 - ex0 in
+      (0 <= sh -> m * 2 ^ sh <= D < (m + 1) * 2 ^ sh) /\ (sh < 0 -> m = D * 2 ^ (- sh)).
+
+Lemma mpn_get_d_spec D ex0 neg : 0 < D -> get_d_spec D ex0 neg (mpn_get_d D neg ex0).
+Proof.
+  intro HD. unfold get_d_spec, mpn_get_d. pose proof (norm53_spec D HD) as S.
+  destruct (norm53 D) as [q k]. destruct S as [Ek [Hq [S1 S2]]].
+  set (b := bitlen D) in *. cbv zeta.
+  replace (1024 <=? ex0 + k + 52) with (1025 <=? b + ex0) by lia.
+  destruct (1025 <=? b + ex0) eqn:C1; [reflexivity|].
+  replace (-1022 <=? ex0 + k + 52) with (-1021 <=? b + ex0) by lia.
+  destruct (-1021 <=? b + ex0) eqn:C2.
+  - exists q, k. split; [reflexivity|]. split; [exact Hq|]. split; [lia|]. split.
+    + intro H0. destruct (S1 H0) as [_ [A B]]. split; [exact A|].
+      assert (P : 0 < 2 ^ k) by (apply pow2_pos; lia). nia.
+    + exact S2.
+  - replace (ex0 + k + 52 <=? -1075) with (b + ex0 <=? -1074) by lia.
+    destruct (b + ex0 <=? -1074) eqn:C3; [reflexivity|].
+    apply Z.leb_gt in C1, C2, C3.
+    set (r := -1022 - (ex0 + k + 52)). assert (Hr : 1 <= r <= 52) by (unfold r; lia).
+    assert (Pr : 0 < 2 ^ r) by (apply pow2_pos; lia).
+    exists (q / 2 ^ r). split; [reflexivity|].
+    assert (E52 : 2 ^ 52 = 2 ^ (52 - r) * 2 ^ r) by (rewrite <- pow2_add by lia; f_equal; lia).
+    assert (E53 : 2 ^ 53 = 2 ^ (53 - r) * 2 ^ r) by (rewrite <- pow2_add by lia; f_equal; lia).
+    assert (L1 : 2 ^ (52 - r) <= q / 2 ^ r) by (apply Z.div_le_lower_bound; lia).
+    assert (L2 : q / 2 ^ r < 2 ^ (53 - r)) by (apply Z.div_lt_upper_bound; lia).
+    assert (L3 : 0 < 2 ^ (52 - r)) by (apply pow2_pos; lia).
+    assert (L4 : 2 ^ (53 - r) <= 2 ^ 52) by (apply pow2_le; lia).
+    split; [lia|].
+    assert (SH : -1074 - ex0 = k + r) by (unfold r; lia). rewrite SH.
+    destruct (Z_lt_le_dec k 0) as [K|K].
+    + (* q = D * 2^(-k) *)
+      rewrite (S2 K). destruct (Z_lt_le_dec (k + r) 0) as [T|T].
+      * split; [lia|]. intros _.
+        replace (- k) with (- (k + r) + r) by lia. rewrite pow2_add by lia.
+        rewrite Z.mul_assoc. apply Z.div_mul. lia.
+      * split; [|lia]. intros _.
+        assert (Er : 2 ^ r = 2 ^ (- k) * 2 ^ (k + r)) by (rewrite <- pow2_add by lia; f_equal; lia).
+        assert (Pk : 0 < 2 ^ (- k)) by (apply pow2_pos; lia).
+        assert (Pkr : 0 < 2 ^ (k + r)) by (apply pow2_pos; lia).
+        rewrite Er. rewrite (Z.mul_comm D). rewrite Z.div_mul_cancel_l by lia.
+        pose proof (Z.mul_div_le D (2 ^ (k + r)) Pkr). pose proof (Z.mul_succ_div_gt D (2 ^ (k + r)) Pkr). lia.
+    + destruct (S1 K) as [Eq _]. rewrite Eq. split; [|lia]. intros _.
+      assert (Pk : 0 < 2 ^ k) by (apply pow2_pos; lia).
+      rewrite Z.div_div by lia. rewrite <- pow2_add by lia.
+      assert (Pkr : 0 < 2 ^ (k + r)) by (apply pow2_pos; lia).
+      pose proof (Z.mul_div_le D (2 ^ (k + r)) Pkr). pose proof (Z.mul_succ_div_gt D (2 ^ (k + r)) Pkr). lia.
+Qed.
+
+Theorem get_d_whole_range f : wf_mpf f = true -> m_size f <> 0 ->
+  in_long ((m_exp f - m_n f) * 64) = true ->
+  exists d, mpf_get_d f = Ok d /\ get_d_spec (m_d f) ((m_exp f - m_n f) * 64) (m_neg f) d /\ canon_dbl d = true.
+Proof.
+  intros W N L. destruct (wf_bitlen f W N) as [D _].
+  unfold mpf_get_d. replace (m_size f =? 0) with false by (symmetry; apply Z.eqb_neq; exact N). rewrite L.
+  eexists. split; [reflexivity|]. split; [apply mpn_get_d_spec; exact D|].
+  pose proof (mpn_get_d_spec (m_d f) ((m_exp f - m_n f) * 64) (m_neg f) D) as S.
+  unfold get_d_spec in S. cbv zeta in S.
+  destruct (1025 <=? _) in S; [rewrite S; reflexivity|].
+  destruct (-1021 <=? _) in S.
+  - destruct S as (q & k & E & Hq & He & _). rewrite E. unfold canon_dbl. lia.
+  - destruct (_ <=? -1074) in S; [rewrite S; reflexivity|].
+    destruct S as (m & E & Hm & _). rewrite E. unfold canon_dbl. lia.
+Qed.
+
+Theorem get_d_zero f : m_size f = 0 -> mpf_get_d f = Ok DZero.
+Proof. intro N. unfold mpf_get_d. rewrite N. reflexivity. Qed.
